@@ -446,6 +446,13 @@ def writer(rep, prog, A):
         rep.check(bl is not None and wit is None, 'C10.3', 'Armorable.__armor_regex', 'reader body language includes %d-column lines' % w,
                   'the reader must accept every line length the writer produces', where=A.where, expected='every body made of %d-character lines' % w,
                   found=None if wit is None else 'not accepted: %r' % regexast.show_word(wit))
+    # ... and every body another RFC 4880 encoder can produce (6.3: lines of up to 76 characters)
+    bl = group_lang(A, 'body')
+    rfc = regexast.Lang.of(r'(?:%s{76}\n)*(?:%s{4}){0,18}(?:%s{4}|%s{3}=|%s{2}==)\n' % (B64, B64, B64, B64, B64))
+    wit = rfc.witness_not_in(bl) if bl is not None else []
+    rep.check(bl is not None and wit is None, 'C10.3', 'Armorable.__armor_regex', 'reader body language includes 76-column lines',
+              'the reader must accept armor lines of up to 76 characters (RFC 4880 6.3), whatever width the writer itself uses', where=A.where,
+              expected='[A-Za-z0-9+/]{1,76} per line', found=None if wit is None else 'not accepted: %r' % regexast.show_word(wit))
     return sep_seen
 
 
